@@ -118,8 +118,23 @@ def run_config(prog, shape):
 
 def confirm(case, nat):
     if case.get("op") == "server_devices":
-        # the real server storage: the call went through and the keys it verifies against differ from the log's replay
-        return nat.get("outcome") == "ok" and "Ok" in (nat.get("result") or {}) and nat.get("agree") is False
+        # the real server storage: the call went through and the keys it verifies against are not the keys the device
+        # log trusts (recomputed here from the scenario: trust adds, revoke removes - independent of DeviceReducer)
+        if nat.get("outcome") != "ok" or "Ok" not in (nat.get("result") or {}):
+            return False
+        res = str(nat["result"]["Ok"])
+        if case.get("call") == "merge":
+            events = list(case["log"]) + (list(case["patch"]) if res.startswith("Success") else [])
+        else:
+            events = list(case["patch"])
+        trusted = []
+        for kind, key in events:
+            if kind == "trust" and key not in trusted:
+                trusted.append(key)
+            elif kind == "revoke" and key in trusted:
+                trusted.remove(key)
+        want = sorted("%02x" % k + "22" * 31 for k in trusted)
+        return nat.get("agree") is False or sorted(nat.get("listed", [])) != want
     return nat.get("outcome") == "ok" and nat.get("admitted") == case["admitted"]
 
 
